@@ -67,8 +67,12 @@ def _bulk(ctx, index):
         placeholder = [
             c
             for c in scope_nodes
-            if isinstance(c, ast.Call) and isinstance(c.func, ast.Attribute) and c.func.attr == "format" and isinstance(c.func.value, ast.Constant) and c.func.value.value == "{{{}}}"
+            if isinstance(c, ast.Call) and isinstance(c.func, ast.Attribute) and c.func.attr == "format" and isinstance(c.func.value, ast.Constant) and isinstance(c.func.value.value, str) and re.match(r"^\{\{\{\w*\}\}\}$", c.func.value.value)
         ]
+        # the value that fills the placeholder: the positional argument or the (only) keyword
+        for c in placeholder:
+            if not c.args and c.keywords:
+                c.args = [c.keywords[0].value]
         pvar = lam.args.args[0].arg if isinstance(lam, ast.Lambda) and lam.args.args else (norm(placeholder[0].args[0]) if placeholder and placeholder[0].args else None)
         if isinstance(x, ast.Dict):
             d = {k.value: v for k, v in zip(x.keys, x.values) if isinstance(k, ast.Constant)}
@@ -452,7 +456,9 @@ def run(ctx):
         # -------------------------------------------------------------- params
         ctx.need(item_var is not None, "item path template vanished")
         var, args, tpl_node = item_var
-        id_expr = args.get("id")
+        # the field inside the literal braces `{{{<field>}}}` of the item path template, whatever it is called
+        mt_ = re.search(r"\{\{\{(\w*)\}\}\}", tpl_node.func.value.value) if isinstance(tpl_node, ast.Call) and isinstance(tpl_node.func, ast.Attribute) and isinstance(tpl_node.func.value, ast.Constant) else None
+        id_expr = args.get(mt_.group(1)) if mt_ and mt_.group(1) in args else (norm(tpl_node.args[0]) if mt_ and isinstance(tpl_node, ast.Call) and tpl_node.args else args.get("id"))
         decl_ok = False
         for n in iter_own(f.node):
             if isinstance(n, ast.Assign) and norm(n.targets[0]) == "paths[{}]".format(var) and isinstance(n.value, ast.Dict):
